@@ -90,6 +90,7 @@ package bbolt
 //@ uninterp func bufpage(arr int, off int, id common.Pgid) *common.Page
 //@ axiom [bufpage.inj] forall a int, o int, i common.Pgid, j common.Pgid :: i != j ==> bufpage(a, o, i) != bufpage(a, o, j)
 //@ axiom [metaof.inj] forall p *common.Page, q *common.Page :: p != q ==> metaof(p) != metaof(q)
+//@ axiom [metaof.view] forall p *common.Page :: interior(p) ==> interior(metaof(p))     -- the meta behind a page header that lives inside a buffer lives inside that buffer
 
 //@ func (*DB).pageInBuffer
 //@   trusted
@@ -626,7 +627,7 @@ package bbolt
 //@   returns (n, err)
 //@   props C14
 //@   requires tx.db != nil && tx.meta != nil && tx.db.file != nil && tx.db.pageSize >= 512 && tx.db.pageSize <= 16777216
-//@   requires tx.meta.txid >= 1 && tx.meta.pgid >= 2 && tx.meta.pgid * tx.db.pageSize <= 281474976710655 && metavalid(tx.meta)
+//@   requires tx.meta.txid >= 1 && tx.meta.pgid >= 2 && tx.meta.pgid * tx.db.pageSize <= 281474976710655 && metavalid(tx.meta) && isobject(tx.meta)
 //@   callback ensures true
 //@   ensures [size] err == nil ==> n == tx.meta.pgid * tx.db.pageSize && wbytes == old(wbytes) + n
 //@   ensures [meta0] err == nil ==> (let k := old(wcount) in wpageid[k] == 0 && wflags[k] == common.MetaPageFlag && wlen[k] == tx.db.pageSize && wtxid[k] == tx.meta.txid && wroot[k] == tx.meta.root.root && wfreelist[k] == tx.meta.freelist && wpgid[k] == tx.meta.pgid && wvalid[k])
